@@ -275,3 +275,48 @@ Proof.
   intros first kept h0 script reqs sched. split; [apply crun_g_old|].
   intro Hr. rewrite crun_g_ready; [apply crun_g_old | exact Hr].
 Qed.
+
+(* ================================================================ 3. every event production function *)
+
+Theorem c08_gen_exactly_once_proof : C08_gen_exactly_once.
+Proof. exact c08_exactly_once_proof. Qed.
+Theorem c08_gen_refused_proof : C08_gen_refused.
+Proof. exact c08_refused_proof. Qed.
+Theorem c08_gen_isolation_hub_proof : C08_gen_isolation_hub.
+Proof. exact c08_isolation_hub_proof. Qed.
+Theorem c08_gen_isolation_subs_proof : C08_gen_isolation_subs.
+Proof. exact c08_isolation_subs_proof. Qed.
+Theorem c08_gen_lone_proof : C08_gen_lone.
+Proof. exact c08_lone_proof. Qed.
+Theorem c08_gen_registration_atomic_proof : C08_gen_registration_atomic.
+Proof. exact c08_registration_atomic_proof. Qed.
+Theorem c08_gen_serial_hub_proof : C08_gen_serial_hub.
+Proof. exact c08_serial_hub_proof. Qed.
+Theorem c08_gen_serial_lone_proof : C08_gen_serial_lone.
+Proof. exact c08_serial_lone_proof. Qed.
+Theorem c08_gen_serial_exactly_once_proof : C08_gen_serial_exactly_once.
+Proof. exact c08_serial_exactly_once_proof. Qed.
+Theorem c08_gen_serial_isolation_proof : C08_gen_serial_isolation.
+Proof. exact c08_serial_isolation_proof. Qed.
+Theorem c08_gen_seq_embeds_proof : C08_gen_seq_embeds.
+Proof. exact c08_seq_embeds_proof. Qed.
+Theorem c08_gen_sched_serializable_proof : C08_gen_sched_serializable.
+Proof. exact c08_sched_serializable_proof. Qed.
+Theorem c08_gen_sched_mutual_exclusion_proof : C08_gen_sched_mutual_exclusion.
+Proof. exact c08_sched_mutual_exclusion_proof. Qed.
+Theorem c08_gen_sched_burst_append_atomic_proof : C08_gen_sched_burst_append_atomic.
+Proof. exact c08_sched_burst_append_atomic_proof. Qed.
+Theorem c08_gen_sched_no_lost_registration_proof : C08_gen_sched_no_lost_registration.
+Proof. exact c08_sched_no_lost_registration_proof. Qed.
+Theorem c08_gen_sched_registration_atomic_proof : C08_gen_sched_registration_atomic.
+Proof. exact c08_sched_registration_atomic_proof. Qed.
+Theorem c08_gen_sched_exactly_once_proof : C08_gen_sched_exactly_once.
+Proof. exact c08_sched_exactly_once_proof. Qed.
+Theorem c08_gen_sched_isolation_proof : C08_gen_sched_isolation.
+Proof. exact c08_sched_isolation_proof. Qed.
+Theorem c08_gen_sched_hub_unaffected_proof : C08_gen_sched_hub_unaffected.
+Proof. exact c08_sched_hub_unaffected_proof. Qed.
+Theorem c08_gen_sched_complete_delivery_proof : C08_gen_sched_complete_delivery.
+Proof. exact c08_sched_complete_delivery_proof. Qed.
+Theorem c08_gen_sched_no_deadlock_proof : C08_gen_sched_no_deadlock.
+Proof. exact c08_sched_no_deadlock_proof. Qed.
